@@ -72,7 +72,7 @@ CHECKS = {
         text="Wiring decided exactly: each of the 17 setter calls is control dependent on the Cli field of its documented flag (pre-expansion attributes), "
              "threshold/surrogate values come from their own flags, stdout receives build()'s value plus newline, exit 1 only after stderr; the three "
              "line channels use lines() with identity maps; the zero-rejecting value parser guards both thresholds; no panic-on-unusable-input construct "
-             "is reachable from main; the text of a channel is not rewritten before it is split (CLI-3 producer side); the only clap relations between arguments are the documented ones (CLI-6); every used producer of the settings yields the documented defaults, so from_file starts like from (DEF-1).",
+             "is reachable from main; the text of a channel is not rewritten before it is split (CLI-3 producer side); the only clap relations between arguments are the documented ones (CLI-6); no input channel decodes bytes lossily (CLI-8); every used producer of the settings yields the documented defaults, so from_file starts like from (DEF-1).",
         design_ref="DESIGN.md §4 C12",
         note=TRUST + "clap's own parsing and the operating system's delivery of stdout/stderr are trusted; actual process output is not observed.",
         technique="static analysis: control dependence against pre-expansion clap attributes, origin trees of printed values, constant propagation of the value parser",
@@ -100,7 +100,7 @@ CHECKS = {
         category="other",
         text="Constant and structural clauses: the set of code points sent to the surrogate helper is exactly U+10000..=U+10FFFF (read from the range constant), the "
              "per-character dispatch is ASCII/identity, astral+surrogates/helper (\\u{hex} per UTF-16 unit), else char::escape_unicode; every literal is escaped on "
-             "every path before printing with the Literal's own flags; value-flow shows both flags only ever carry their own setting, also in the recursive call (PLB-1); an escaped "
+             "every path before printing with the Literal's own flags; the non-ASCII pass escapes char by char only (ESCP-3); value-flow shows both flags only ever carry their own setting, also in the recursive call (PLB-1); an escaped "
              "multi-sequence unit keeps its group under a quantifier (PRC-2).",
         design_ref="DESIGN.md §4 C11",
         note=TRUST + "Pure-ASCII output for all inputs, re-decodability and language equality are not decided.",
